@@ -226,6 +226,7 @@ fn run_step_with(boc: &Arc<BocData>, st: &Step, max_write: usize, hash_seed: u64
         server_today: if ahead != 0 { Some(pd(&st.today)) } else { None },
         clock_tz: None,
         now_shift: 0,
+        session: None,
         fs_faults,
         knobs: Knobs { max_write, max_read: usize::MAX, eintr_every: 0 },
         hash_seed,
@@ -846,6 +847,7 @@ impl Engine for C14 {
                     server_today: None,
                     clock_tz: None,
                     now_shift: 0,
+                    session: None,
                     fs_faults: FsFaultSpec::default(),
                     knobs: Knobs::default(),
                     hash_seed: sc.hash_seed ^ 7,
@@ -940,6 +942,7 @@ impl Engine for C14 {
                         server_today: None,
                         clock_tz: None,
                         now_shift: 0,
+                        session: None,
                         fs_faults: FsFaultSpec::default(),
                         knobs: Knobs::default(),
                         hash_seed: sc.hash_seed ^ 9,
